@@ -385,7 +385,8 @@ fn run_family(args: &Args, rep: &mut Report, specs: Vec<(String, ListenSpec)>, f
         }
         let b = build_listen(spec.clone());
         let cfg = ExploreCfg {
-            bound: fc.bound,
+            // quick tier: scenarios with three or more connections get one deviation less
+            bound: if !args.thorough() && spec.conns.len() >= 3 && fc.bound >= 2 && spec.prop == "C13" { fc.bound - 1 } else { fc.bound },
             stateful: fc.stateful,
             horizon: fc.horizon,
             max_execs: fc.max_execs,
@@ -524,7 +525,7 @@ fn c13_specs(thorough: bool) -> Vec<(String, ListenSpec)> {
 }
 
 fn c13(args: &Args) -> ! {
-    let mut rep = Report::new("C13", "the real listen() loop + thread pool + handle() over in-memory streams under the controlled scheduler: 2..4 connections with roles {healthy (3 pipelined tagged requests in 1-2 chunks), idle, half-open, malformed, garbage, rude (pipelines requests and vanishes: later server writes fail)}, every interleaving of listen thread, workers and environment actions (connect / deliver chunk / close) within the deviation bound (quick 2, thorough 3); oracle: each healthy connection receives byte-for-byte its solo reply stream; non-trivial = distinct complete executions");
+    let mut rep = Report::new("C13", "the real listen() loop + thread pool + handle() over in-memory streams under the controlled scheduler: 2..4 connections with roles {healthy (3 pipelined tagged requests in 1-2 chunks), idle, half-open, malformed, garbage, rude (pipelines requests and vanishes: later server writes fail)}, every interleaving of listen thread, workers and environment actions (connect / deliver chunk / close) within the deviation bound (quick 2, and 1 for the scenarios with three connections; thorough 3); oracle: each healthy connection receives byte-for-byte its solo reply stream; non-trivial = distinct complete executions");
     install_hooks();
     let specs = c13_specs(args.thorough());
     if args.replay.is_some() {
